@@ -13,31 +13,31 @@ CLAIMS = {
     "C01": dict(
         text="Verus proves, for every queue content, bound and cancellation pattern, the contracts of Simulation::{step_to_next_bounded, step, step_until, step_until_unchecked, process, run, time}: time never decreases, a step moves to the earliest live deadline and hands exactly the live actions due then to the executor before running it, pending actions stay strictly later than the time (units sim, sched, pq).",
         note="assumes A-exec (the executor runs what was spawned at the current time), the PriorityQueue contract proved in unit pq, tai_time exact; process_event/process_query (async block construction) are not under contract; sequentialised (lock elision), concurrent schedulers are covered by the monitor pass under C08",
-        ref="DESIGN.md §5 C01", tech=TECH_V),
+        ref="DESIGN.md §5 C01", tech=TECH_V + "; bounded executable stand-in (xsim) as counterexample generator and fallback, labelled bounded"),
     "C06": dict(
         text="Verus proves that Simulation::run maps UnprocessedMessages to Deadlock exactly when an observed mailbox is non-empty, listing exactly the non-empty observers with name and size in registration order, and to MessageLoss otherwise, for every observer vector and executor result (unit sim); and that every model added through SimInit::add_model or BuildContext::add_submodel, to any depth, gets exactly one mailbox observer registered under its qualified name (unit reg). Kani proves Queue::len (the observed size) exact when quiescent.",
         note="assumed, not decided: that the count handed up by the executor equals sent minus received (per-thread counters, concurrency); ProtoModel::build touches the registries only through add_submodel (private fields); A-exec",
-        ref="DESIGN.md §5 C06", tech=TECH_V),
+        ref="DESIGN.md §5 C06", tech=TECH_VK),
     "C07": dict(
         text="Verus proves: PriorityQueue is FIFO among equal keys (pq); scheduling inserts exactly one entry keyed (deadline, origin) (sched); a step puts all live same-(time, origin) entries into one task in queue order (sim); SeqFuture polls its futures strictly in push order (seqfut).",
         note="A-exec; origin ids of Scheduler/Context wrappers are not under contract; mailbox FIFO is C12",
-        ref="DESIGN.md §5 C07", tech=TECH_V),
+        ref="DESIGN.md §5 C07", tech=TECH_V + "; bounded executable stand-in (xsim) as counterexample generator and fallback, labelled bounded"),
     "C08": dict(
         text="Verus proves for all five GlobalScheduler::schedule_*_from: accepted iff deadline > now (read inside the critical section) and period non-zero, rejection has no effect, acceptance queues exactly the request; and termination (decreases clauses) of every loop of the stepping functions (units sched, sim). Monitor pass (simmon, schedmon): with the queue and the time havocked at every lock acquisition, every critical section re-establishes `queue sorted, all deadlines > time, no zero period` and the time is only written under the queue lock and never decreases.",
         note="sequentialised functional pass + monitor pass (units simmon, schedmon): queue havocked at every lock acquisition, invariant re-established at every release, time written only under the lock - valid for every interleaving of threads that follow the same lock protocol; stubs assumed to terminate; Mutex gives mutual exclusion",
-        ref="DESIGN.md §5 C08", tech=TECH_V),
+        ref="DESIGN.md §5 C08", tech=TECH_V + "; bounded executable stand-in (xsim) as counterexample generator and fallback, labelled bounded"),
     "C09": dict(
         text="Verus proves that a step executes no entry found cancelled, discards cancelled heads without re-inserting periodic ones, leaves every other entry untouched, and that a keyed scheduling call returns the key observed by the queued action (units sim, sched).",
         note="the re-check of the flag inside the model (async send_keyed_event) is not covered; Kani (complete, loop-free) proves that ActionKey clones / AutoActionKey / the keyed actions and their next occurrences observe one shared flag",
-        ref="DESIGN.md §5 C09", tech=TECH_V),
+        ref="DESIGN.md §5 C09", tech=TECH_VK + "; bounded executable stand-in (xsim) as counterexample generator"),
     "C10": dict(
         text="Verus proves that every executed periodic entry (time t, period p) has exactly one successor queued at t + p in the same series with the same period, non-periodic and cancelled ones none, and that schedule_*periodic* queue the requested period (units sim, sched).",
         note="tai_time addition assumed exact; Kani (complete, all Durations) proves that {Periodic,KeyedPeriodic}Action::next return the stored period and Once actions have no next",
-        ref="DESIGN.md §5 C10", tech=TECH_V),
+        ref="DESIGN.md §5 C10", tech=TECH_VK + "; bounded executable stand-in (xsim) as counterexample generator"),
     "C11": dict(
         text="Verus proves the mapping of every ExecutorError value by Simulation::run (Timeout, Panic with model name and payload, NoRecipient for SendError payloads), that every fatal error sets the terminated flag, and that step/step_until/process on a terminated simulation return Terminated without moving the time or entering the executor (unit sim); the ModelId given to each model task indexes that model's own qualified name (unit reg).",
         note="that the executors produce the right ExecutorError (catch_unwind, CURRENT_MODEL_ID, timeout thread) is not decided; process_event/process_query bodies not under contract",
-        ref="DESIGN.md §5 C11", tech=TECH_V),
+        ref="DESIGN.md §5 C11", tech=TECH_V + "; bounded executable stand-in (xsim) as counterexample generator and fallback, labelled bounded"),
     "C12": dict(
         text="Kani proves, per capacity (1,2 quick; 1..5 thorough) and for every representation-invariant-satisfying state (any sequence count, fill level, open/closed) - i.e. for histories of any length - the sequential contracts of Queue::{push,pop + MessageBorrow::drop,close,len,next_queue_pos}: never more than capacity messages, FIFO, each message exactly once, len exact, Full only when full, after close pushes fail and accepted messages stay receivable. The concurrency half of the property (linearizability under multi-producer interleavings, no lost wake-ups in channel.rs) is NOT decided.",
         note="sequential execution only (Kani has no threads); capacities enumerated, not symbolic; compare_exchange_weak never fails spuriously; the async Sender/Receiver wake-up pairing is outside the technique",
@@ -53,7 +53,7 @@ CLAIMS = {
     "C18": dict(
         text="Verus proves that a step to a new time t calls synchronize(t) exactly once after the time write and before Executor::run (a precondition of run), that OutOfSync is returned exactly when the reported lag exceeds the configured tolerance and then the executor is not entered, and that step_until's final jump synchronises on the target (unit sim).",
         note="SimInit::init not under contract; the clock is only reachable through Simulation (private field); step_until through several times: each new time synchronised exactly once (strictly increasing trace)",
-        ref="DESIGN.md §5 C18", tech=TECH_V),
+        ref="DESIGN.md §5 C18", tech=TECH_V + "; bounded executable stand-in (xsim) as counterexample generator and fallback, labelled bounded"),
     "C20": dict(
         text="Verus proves the whole of util/indexed_priority_queue.rs (39 functions: heap order on (key, epoch), slab/heap cross-indexing, extract only through the matching epoch) and util/priority_queue.rs (stable minimum extraction) for every history, generic key type.",
         note="K's Ord is a total preorder obeying its spec; std BinaryHeap contract assumed; derive(PartialOrd) spec generated from the declared field order; panics are divergence",
